@@ -125,7 +125,7 @@ macro_rules! core_mult {
     };
 }
 
-// @h prop=C05 unwind=7 timeout=600 what=add_core,1x1..3x3_limbs,all_limb_values,vs_u128
+// @h prop=C05 unwind=7 timeout=2400 what=add_core,1x1..3x3_limbs,all_limb_values,vs_u128
 core_add!(core_add_1x1, 1, 1);
 // @h prop=C05 unwind=7 timeout=120
 core_add!(core_add_1x2, 1, 2);
@@ -144,7 +144,7 @@ core_add!(core_add_3x2, 3, 2);
 // @h prop=C05 unwind=7 timeout=120
 core_add!(core_add_3x3, 3, 3);
 
-// @h prop=C05 unwind=7 timeout=600 what=sub_core,|a-b|_and_swapped_flag,vs_u128
+// @h prop=C05 unwind=7 timeout=2400 what=sub_core,|a-b|_and_swapped_flag,vs_u128
 core_sub!(core_sub_1x1, 1, 1);
 // @h prop=C05 unwind=7 timeout=120
 core_sub!(core_sub_1x2, 1, 2);
@@ -163,7 +163,7 @@ core_sub!(core_sub_3x2, 3, 2);
 // @h prop=C05 unwind=7 timeout=120
 core_sub!(core_sub_3x3, 3, 3);
 
-// @h prop=C05 unwind=7 timeout=600 what=less_core_both_directions,vs_u128
+// @h prop=C05 unwind=7 timeout=2400 what=less_core_both_directions,vs_u128
 core_less!(core_less_1x1, 1, 1);
 // @h prop=C05 unwind=7 timeout=120
 core_less!(core_less_1x2, 1, 2);
@@ -177,17 +177,17 @@ core_less!(core_less_2x3, 2, 3);
 core_less!(core_less_3x3, 3, 3);
 
 // family 2: schoolbook multiplication vs sum of partial products
-// @h prop=C05 unwind=8 timeout=900 what=mult_core_vs_sum_of_32x32_partial_products,top_slack_limb_zero
+// @h prop=C05 unwind=8 timeout=2700 what=mult_core_vs_sum_of_32x32_partial_products,top_slack_limb_zero
 core_mult!(core_mult_1x1, 1, 1);
 // @h prop=C05 unwind=8 timeout=240
 core_mult!(core_mult_1x2, 1, 2);
 // @h prop=C05 unwind=8 timeout=240
 core_mult!(core_mult_2x1, 2, 1);
-// @h prop=C05 unwind=8 timeout=600 mem=12
+// @h prop=C05 unwind=8 timeout=2400 mem=12
 core_mult!(core_mult_2x2, 2, 2);
-// @h prop=C05 unwind=8 timeout=900 mem=12 tier=thorough kind=stretch
+// @h prop=C05 unwind=8 timeout=2700 mem=12 tier=thorough kind=stretch
 core_mult!(core_mult_1x3, 1, 3);
-// @h prop=C05 unwind=8 timeout=900 mem=12 tier=thorough kind=stretch
+// @h prop=C05 unwind=8 timeout=2700 mem=12 tier=thorough kind=stretch
 core_mult!(core_mult_3x1, 3, 1);
 
 // family 3: bitwise quotient search, one-limb dividend fully symbolic, constant divisor
@@ -204,27 +204,27 @@ macro_rules! core_div {
         }
     };
 }
-// @h prop=C05 unwind=34 timeout=400 mem=10 what=div_core_1x1,dividend_all_32bit_values,constant_divisor
+// @h prop=C05 unwind=34 timeout=900 mem=10 what=div_core_1x1,dividend_all_32bit_values,constant_divisor
 core_div!(core_div_1x1_d3, 3u32);
-// @h prop=C05 unwind=34 timeout=400 mem=10
+// @h prop=C05 unwind=34 timeout=900 mem=10
 core_div!(core_div_1x1_d10, 10u32);
-// @h prop=C05 unwind=34 timeout=400 mem=10
+// @h prop=C05 unwind=34 timeout=900 mem=10
 core_div!(core_div_1x1_dmax, 0xFFFF_FFFFu32);
-// @h prop=C05 unwind=34 timeout=900 mem=12 tier=thorough
+// @h prop=C05 unwind=34 timeout=2700 mem=12 tier=thorough
 core_div!(core_div_1x1_d1, 1u32);
-// @h prop=C05 unwind=34 timeout=900 mem=12 tier=thorough
+// @h prop=C05 unwind=34 timeout=2700 mem=12 tier=thorough
 core_div!(core_div_1x1_d2, 2u32);
-// @h prop=C05 unwind=34 timeout=900 mem=12 tier=thorough
+// @h prop=C05 unwind=34 timeout=2700 mem=12 tier=thorough
 core_div!(core_div_1x1_d7, 7u32);
-// @h prop=C05 unwind=34 timeout=900 mem=12 tier=thorough
+// @h prop=C05 unwind=34 timeout=2700 mem=12 tier=thorough
 core_div!(core_div_1x1_d36, 36u32);
-// @h prop=C05 unwind=34 timeout=900 mem=12 tier=thorough
+// @h prop=C05 unwind=34 timeout=2700 mem=12 tier=thorough
 core_div!(core_div_1x1_d65536, 65536u32);
-// @h prop=C05 unwind=34 timeout=900 mem=12 tier=thorough
+// @h prop=C05 unwind=34 timeout=2700 mem=12 tier=thorough
 core_div!(core_div_1x1_d2p31, 0x8000_0000u32);
 
 // divisor longer than the dividend: quotient is zero
-// @h prop=C05 unwind=34 timeout=900 mem=12 tier=thorough kind=stretch what=div_core_1x2,quotient_zero
+// @h prop=C05 unwind=34 timeout=2700 mem=12 tier=thorough kind=stretch what=div_core_1x2,quotient_zero
 #[cfg_attr(kani, kani::proof)]
 pub fn core_div_1x2() {
     let a: [u32; 1] = any_u32_arr();
@@ -256,7 +256,7 @@ macro_rules! pub_addsub {
         }
     };
 }
-// @h prop=C05 unwind=8 timeout=900 what=BigNum::add/sub,signs_symbolic,result_value_vs_i128_and_normal_form
+// @h prop=C05 unwind=8 timeout=2700 what=BigNum::add/sub,signs_symbolic,result_value_vs_i128_and_normal_form
 pub_addsub!(pub_addsub_1x1, 1, 1);
 // @h prop=C05 unwind=8 timeout=300
 pub_addsub!(pub_addsub_1x2, 1, 2);
@@ -264,9 +264,9 @@ pub_addsub!(pub_addsub_1x2, 1, 2);
 pub_addsub!(pub_addsub_2x1, 2, 1);
 // @h prop=C05 unwind=8 timeout=300
 pub_addsub!(pub_addsub_2x2, 2, 2);
-// @h prop=C05 unwind=9 timeout=900 mem=12 tier=thorough
+// @h prop=C05 unwind=9 timeout=2700 mem=12 tier=thorough
 pub_addsub!(pub_addsub_3x3, 3, 3);
-// @h prop=C05 unwind=9 timeout=900 mem=12 tier=thorough
+// @h prop=C05 unwind=9 timeout=2700 mem=12 tier=thorough
 pub_addsub!(pub_addsub_3x1, 3, 1);
 
 macro_rules! pub_cmp {
@@ -289,18 +289,18 @@ macro_rules! pub_cmp {
         }
     };
 }
-// @h prop=C05 unwind=14 timeout=900 what=eq,partial_cmp,neg,minus,signs_symbolic
+// @h prop=C05 unwind=14 timeout=2700 what=eq,partial_cmp,neg,minus,signs_symbolic
 pub_cmp!(pub_cmp_1x1, 1, 1);
 // @h prop=C05 unwind=14 timeout=300
 pub_cmp!(pub_cmp_1x2, 1, 2);
 // @h prop=C05 unwind=14 timeout=300
 pub_cmp!(pub_cmp_2x2, 2, 2);
-// @h prop=C05 unwind=18 timeout=600 tier=thorough
+// @h prop=C05 unwind=18 timeout=2400 tier=thorough
 pub_cmp!(pub_cmp_3x3, 3, 3);
-// @h prop=C05 unwind=18 timeout=600 tier=thorough
+// @h prop=C05 unwind=18 timeout=2400 tier=thorough
 pub_cmp!(pub_cmp_2x3, 2, 3);
 
-// @h prop=C05 unwind=8 timeout=900 what=BigNum::mul_sign_dispatch_1x1_vs_i128
+// @h prop=C05 unwind=8 timeout=2700 what=BigNum::mul_sign_dispatch_1x1_vs_i128
 #[cfg_attr(kani, kani::proof)]
 pub fn pub_mul_1x1() {
     let a = any_bn::<1>();
@@ -314,7 +314,7 @@ pub fn pub_mul_1x1() {
     std::mem::forget((a, b, r));
 }
 
-// @h prop=C05 unwind=8 timeout=600 mem=12 tier=thorough what=BigNum::mul_2x1_vs_partial_products
+// @h prop=C05 unwind=8 timeout=2400 mem=12 tier=thorough what=BigNum::mul_2x1_vs_partial_products
 #[cfg_attr(kani, kani::proof)]
 pub fn pub_mul_2x1() {
     let a = any_bn::<2>();
@@ -344,15 +344,15 @@ macro_rules! pub_div {
         }
     };
 }
-// @h prop=C05 unwind=34 timeout=600 mem=10 what=BigNum::div_truncates_toward_zero,sign_dispatch,constant_divisor
+// @h prop=C05 unwind=34 timeout=2400 mem=10 what=BigNum::div_truncates_toward_zero,sign_dispatch,constant_divisor
 pub_div!(pub_div_d10, 10u32);
-// @h prop=C05 unwind=34 timeout=900 mem=12 tier=thorough
+// @h prop=C05 unwind=34 timeout=2700 mem=12 tier=thorough
 pub_div!(pub_div_d7, 7u32);
 
 // ---------------------------------------------------------------------------
 // family 7: construction from a machine integer
 // ---------------------------------------------------------------------------
-// @h prop=C05 unwind=6 timeout=600 what=BigNum::new(isize),all_2^64_values,value_preserved
+// @h prop=C05 unwind=6 timeout=2400 what=BigNum::new(isize),all_2^64_values,value_preserved
 #[cfg_attr(kani, kani::proof)]
 pub fn new_isize() {
     let n = any_isize();
@@ -364,7 +364,7 @@ pub fn new_isize() {
     std::mem::forget(r);
 }
 
-// @h prop=C05 unwind=8 timeout=600 what=from_vec_strips_leading_zero_limbs
+// @h prop=C05 unwind=8 timeout=2400 what=from_vec_strips_leading_zero_limbs
 #[cfg_attr(kani, kani::proof)]
 pub fn from_vec_3() {
     let l: [u32; 3] = any_u32_arr();
@@ -376,7 +376,7 @@ pub fn from_vec_3() {
 }
 
 // vacuity twin of the family: must FAIL
-// @h prop=C05 unwind=7 timeout=600 kind=twin
+// @h prop=C05 unwind=7 timeout=2400 kind=twin
 #[cfg_attr(kani, kani::proof)]
 pub fn twin_core_add() {
     let a: [u32; 2] = any_u32_arr();
@@ -573,7 +573,7 @@ pub(crate) fn m_new1(n: isize) -> BigNum {
 // ---------------------------------------------------------------------------
 // family 5: rem formula and gcd loop (real), over modelled one-limb div/mul/sub resp. rem
 // ---------------------------------------------------------------------------
-// @h prop=C05 unwind=6 timeout=900 what=BigNum::rem=a-(a/b)*b:a=q*b+r,sign_of_dividend,|r|<|b|;one-limb_operands_full_32_bit,both_signs
+// @h prop=C05 unwind=6 timeout=2700 what=BigNum::rem=a-(a/b)*b:a=q*b+r,sign_of_dividend,|r|<|b|;one-limb_operands_full_32_bit,both_signs
 #[cfg_attr(kani, kani::proof)]
 #[cfg_attr(kani, kani::stub(BigNum::div, m_div))]
 #[cfg_attr(kani, kani::stub(BigNum::mul, m_mul))]
@@ -629,7 +629,7 @@ fn gcd_body(x: u32, y: u32, px: bool, py: bool) {
     std::mem::forget((a, b, g));
 }
 
-// @h prop=C05 unwind=14 timeout=900 mem=12 what=BigNum::gcd_Euclid_loop_over_modelled_rem,8-bit_operands,both_signs,terminates_within_13_iterations
+// @h prop=C05 unwind=14 timeout=2700 mem=12 what=BigNum::gcd_Euclid_loop_over_modelled_rem,8-bit_operands,both_signs,terminates_within_13_iterations
 #[cfg_attr(kani, kani::proof)]
 #[cfg_attr(kani, kani::stub(BigNum::rem, m_rem))]
 pub fn gcd_loop8() {
@@ -638,7 +638,7 @@ pub fn gcd_loop8() {
     vcover!();
 }
 
-// @h prop=C05 unwind=26 timeout=900 mem=12 tier=thorough what=BigNum::gcd,16-bit_operands,terminates_within_25_iterations
+// @h prop=C05 unwind=26 timeout=2700 mem=12 tier=thorough what=BigNum::gcd,16-bit_operands,terminates_within_25_iterations
 #[cfg_attr(kani, kani::proof)]
 #[cfg_attr(kani, kani::stub(BigNum::rem, m_rem))]
 pub fn gcd_loop16() {
@@ -678,20 +678,20 @@ macro_rules! assign_agree {
         }
     };
 }
-// @h prop=C05 unwind=8 timeout=900 what=a+=b_equals_a+b_structurally
+// @h prop=C05 unwind=8 timeout=2700 what=a+=b_equals_a+b_structurally
 assign_agree!(assign_add_1x1, 1, 1, +, +=);
 // @h prop=C05 unwind=8 timeout=300
 assign_agree!(assign_sub_1x1, 1, 1, -, -=);
-// @h prop=C05 unwind=8 timeout=600 mem=12
+// @h prop=C05 unwind=8 timeout=2400 mem=12
 assign_agree!(assign_add_2x2, 2, 2, +, +=);
-// @h prop=C05 unwind=8 timeout=600 mem=12
+// @h prop=C05 unwind=8 timeout=2400 mem=12
 assign_agree!(assign_sub_2x1, 2, 1, -, -=);
-// @h prop=C05 unwind=8 timeout=600 mem=12
+// @h prop=C05 unwind=8 timeout=2400 mem=12
 assign_agree!(assign_mul_1x1, 1, 1, *, *=);
 
 // div/rem in place: the underlying pure operations are stubbed by their one-limb models, the
 // subject is the glue (`set_move(&*self / rhs)`)
-// @h prop=C05 unwind=6 timeout=900 what=a/=b,a%=b_equal_a/b,a%b(glue_over_modelled_div/rem)
+// @h prop=C05 unwind=6 timeout=2700 what=a/=b,a%=b_equal_a/b,a%b(glue_over_modelled_div/rem)
 #[cfg_attr(kani, kani::proof)]
 #[cfg_attr(kani, kani::stub(BigNum::div, m_div))]
 #[cfg_attr(kani, kani::stub(BigNum::rem, m_rem))]
@@ -714,7 +714,7 @@ pub fn assign_divrem_1x1() {
 
 // model validity (not a property check): the signed-Euclid model of gcd used by the C06 harnesses
 // agrees with the real BigNum::gcd (over the modelled rem) including the sign, 8-bit operands
-// @h prop=C06 unwind=14 timeout=600 mem=12 kind=model what=validity_of_the_gcd_model(sign_included)_against_the_real_loop
+// @h prop=C06 unwind=14 timeout=2400 mem=12 kind=model what=validity_of_the_gcd_model(sign_included)_against_the_real_loop
 #[cfg_attr(kani, kani::proof)]
 #[cfg_attr(kani, kani::stub(BigNum::rem, m_rem))]
 pub fn gcd_model_valid8() {
@@ -789,16 +789,16 @@ macro_rules! to_base {
         }
     };
 }
-// @h prop=C09 unwind=4 timeout=900 mem=12 tier=thorough kind=stretch stubs=BigNum::rem,div,new->one-limb_models what=2_digits:to_string_base(2):all_values<2^3,both_signs:conventional_digits,leading_minus,no_leading_zero,"0"
+// @h prop=C09 unwind=4 timeout=2700 mem=12 tier=thorough kind=stretch stubs=BigNum::rem,div,new->one-limb_models what=2_digits:to_string_base(2):all_values<2^3,both_signs:conventional_digits,leading_minus,no_leading_zero,"0"
 to_base!(to_base_2, 2u32);
-// @h prop=C09 unwind=4 timeout=900 mem=12 tier=thorough kind=stretch stubs=BigNum::rem,div,new->one-limb_models what=2_digits:to_string_base(10):all_values<1000,both_signs
+// @h prop=C09 unwind=4 timeout=2700 mem=12 tier=thorough kind=stretch stubs=BigNum::rem,div,new->one-limb_models what=2_digits:to_string_base(10):all_values<1000,both_signs
 to_base!(to_base_10, 10u32);
-// @h prop=C09 unwind=4 timeout=900 mem=12 tier=thorough kind=stretch stubs=BigNum::rem,div,new->one-limb_models what=2_digits:to_string_base(16):all_values<4096
+// @h prop=C09 unwind=4 timeout=2700 mem=12 tier=thorough kind=stretch stubs=BigNum::rem,div,new->one-limb_models what=2_digits:to_string_base(16):all_values<4096
 to_base!(to_base_16, 16u32);
-// @h prop=C09 unwind=4 timeout=900 mem=12 tier=thorough kind=stretch stubs=BigNum::rem,div,new->one-limb_models what=2_digits:to_string_base(36):all_values<46656(digits_up_to_Z)
+// @h prop=C09 unwind=4 timeout=2700 mem=12 tier=thorough kind=stretch stubs=BigNum::rem,div,new->one-limb_models what=2_digits:to_string_base(36):all_values<46656(digits_up_to_Z)
 to_base!(to_base_36, 36u32);
 
-// @h prop=C09 unwind=6 timeout=900 mem=12 tier=thorough kind=stretch what=to_string_base(symbolic_base_2..36):values<base^3
+// @h prop=C09 unwind=6 timeout=2700 mem=12 tier=thorough kind=stretch what=to_string_base(symbolic_base_2..36):values<base^3
 #[cfg_attr(kani, kani::proof)]
 #[cfg_attr(kani, kani::stub(BigNum::rem, m_rem))]
 #[cfg_attr(kani, kani::stub(BigNum::div, m_div))]
@@ -811,7 +811,7 @@ pub fn to_base_sym() {
     vcover!();
 }
 
-// @h prop=C09 unwind=4 timeout=900 mem=12 tier=thorough kind=stretch what=to_string_base/from_string_base_reject_base_0_and_bases_above_36
+// @h prop=C09 unwind=4 timeout=2700 mem=12 tier=thorough kind=stretch what=to_string_base/from_string_base_reject_base_0_and_bases_above_36
 #[cfg_attr(kani, kani::proof)]
 pub fn base_range() {
     let base = any_usize();
@@ -894,13 +894,13 @@ macro_rules! from_base {
         }
     };
 }
-// @h prop=C09 unwind=7 timeout=600 mem=12 stubs=BigNum::mul,add,new->one-limb_models what=from_string_base(10):every_ASCII_text_of_3_characters(+optional_minus):Horner_value_or_ParseError
+// @h prop=C09 unwind=7 timeout=2400 mem=12 stubs=BigNum::mul,add,new->one-limb_models what=from_string_base(10):every_ASCII_text_of_3_characters(+optional_minus):Horner_value_or_ParseError
 from_base!(from_base_10_3, 10u32, 3);
-// @h prop=C09 unwind=7 timeout=600 mem=12 stubs=BigNum::mul,add,new->one-limb_models what=from_string_base(36):3_characters
+// @h prop=C09 unwind=7 timeout=2400 mem=12 stubs=BigNum::mul,add,new->one-limb_models what=from_string_base(36):3_characters
 from_base!(from_base_36_3, 36u32, 3);
-// @h prop=C09 unwind=7 timeout=600 mem=12 stubs=BigNum::mul,add,new->one-limb_models what=from_string_base(2):4_characters
+// @h prop=C09 unwind=7 timeout=2400 mem=12 stubs=BigNum::mul,add,new->one-limb_models what=from_string_base(2):4_characters
 from_base!(from_base_2_4, 2u32, 4);
-// @h prop=C09 unwind=7 timeout=600 mem=12 stubs=BigNum::mul,add,new->one-limb_models what=from_string_base(16):1_character
+// @h prop=C09 unwind=7 timeout=2400 mem=12 stubs=BigNum::mul,add,new->one-limb_models what=from_string_base(16):1_character
 from_base!(from_base_16_1, 16u32, 1);
 
 // round trip through the real text: render (real loop) then read back (real loop)
@@ -924,15 +924,15 @@ macro_rules! base_roundtrip {
         }
     };
 }
-// @h prop=C09 unwind=7 timeout=900 mem=12 tier=thorough kind=stretch stubs=BigNum::rem,div,mul,add,new->one-limb_models what=render_then_read_back,base_10,values<1000,both_signs
+// @h prop=C09 unwind=7 timeout=2700 mem=12 tier=thorough kind=stretch stubs=BigNum::rem,div,mul,add,new->one-limb_models what=render_then_read_back,base_10,values<1000,both_signs
 base_roundtrip!(base_roundtrip_10, 10u32);
-// @h prop=C09 unwind=7 timeout=900 mem=12 tier=thorough kind=stretch stubs=BigNum::rem,div,mul,add,new->one-limb_models what=render_then_read_back,base_36
+// @h prop=C09 unwind=7 timeout=2700 mem=12 tier=thorough kind=stretch stubs=BigNum::rem,div,mul,add,new->one-limb_models what=render_then_read_back,base_36
 base_roundtrip!(base_roundtrip_36, 36u32);
-// @h prop=C09 unwind=7 timeout=900 mem=12 tier=thorough kind=stretch stubs=BigNum::rem,div,mul,add,new->one-limb_models what=render_then_read_back,base_2
+// @h prop=C09 unwind=7 timeout=2700 mem=12 tier=thorough kind=stretch stubs=BigNum::rem,div,mul,add,new->one-limb_models what=render_then_read_back,base_2
 base_roundtrip!(base_roundtrip_2, 2u32);
 
 // vacuity twin (must FAIL)
-// @h prop=C09 unwind=7 timeout=600 mem=12 kind=twin
+// @h prop=C09 unwind=7 timeout=2400 mem=12 kind=twin
 #[cfg_attr(kani, kani::proof)]
 #[cfg_attr(kani, kani::stub(BigNum::mul, m_mul))]
 #[cfg_attr(kani, kani::stub(BigNum::add, m_add))]
@@ -945,7 +945,7 @@ pub fn twin_from_base() {
 }
 
 // probe: one digit, non-negative
-// @h prop=C09 unwind=3 uw=memcmp.0:6 timeout=600 mem=12 what=to_string_base:one_digit,every_base_2..36
+// @h prop=C09 unwind=3 uw=memcmp.0:6 timeout=2400 mem=12 what=to_string_base:one_digit,every_base_2..36
 #[cfg_attr(kani, kani::proof)]
 #[cfg_attr(kani, kani::stub(BigNum::rem, m_rem))]
 #[cfg_attr(kani, kani::stub(BigNum::div, m_div))]
@@ -961,7 +961,7 @@ pub fn to_base_1digit() {
     std::mem::forget((x, s));
 }
 
-// @h prop=C09 unwind=4 uw=memcmp.0:6 timeout=900 mem=12 tier=thorough kind=stretch what=probe_to_string_base_two_digits
+// @h prop=C09 unwind=4 uw=memcmp.0:6 timeout=2700 mem=12 tier=thorough kind=stretch what=probe_to_string_base_two_digits
 #[cfg_attr(kani, kani::proof)]
 #[cfg_attr(kani, kani::stub(BigNum::rem, m_rem))]
 #[cfg_attr(kani, kani::stub(BigNum::div, m_div))]
@@ -1002,7 +1002,7 @@ fn ref_mul192(a: &[u32], b: &[u32], out: &mut [u32; 6]) {
         k += 1;
     }
 }
-// @h prop=C05 unwind=8 timeout=1800 mem=16 what=mult_core_2x3_with_rhs=[b0,0,b2](zero_middle_limb):all_other_limbs_symbolic,vs_column_sums
+// @h prop=C05 unwind=8 timeout=3600 mem=16 what=mult_core_2x3_with_rhs=[b0,0,b2](zero_middle_limb):all_other_limbs_symbolic,vs_column_sums
 #[cfg_attr(kani, kani::proof)]
 pub fn core_mult_2x3_zero_mid() {
     let a: [u32; 2] = any_u32_arr();
@@ -1018,7 +1018,7 @@ pub fn core_mult_2x3_zero_mid() {
     }
     vcover!();
 }
-// @h prop=C05 unwind=8 timeout=1800 mem=16 what=mult_core_3x2_with_lhs=[a0,0,a2](zero_middle_limb,the_kernel's_own_skip)
+// @h prop=C05 unwind=8 timeout=3600 mem=16 what=mult_core_3x2_with_lhs=[a0,0,a2](zero_middle_limb,the_kernel's_own_skip)
 #[cfg_attr(kani, kani::proof)]
 pub fn core_mult_3x2_zero_mid() {
     let a = [any_u32(), 0u32, any_u32()];
